@@ -20,12 +20,12 @@ RULE = ("a case = (entry point, protocol phase, adversarial byte string the simu
         "not a multiple of 16, correct SHA-256 tag over garbage, every type nibble 0..15 in every phase (pre-auth, handshake, data), size "
         "fields 0/65535, truncations, several packets per segment, random bytes. Allowed outcomes: LAN.send -> frames | ProtocolError | "
         "TimeoutError; LAN.authenticate -> return | ProtocolError | TimeoutError; Device.authenticate -> return | AuthenticationError; "
-        "Device._send_command / AirConditioner.refresh -> return only. distinct = (entry point, phase, bytes); non-trivial = all")
+        "Device._send_command / AirConditioner.refresh / apply / get_capabilities / toggle_display -> return only. distinct = (entry point, phase, bytes); non-trivial = all")
 ASSUMPTIONS = ["the peer controls bytes only (host names, key lengths and other caller inputs are not mutated)",
                "exceptions raised inside data_received are recorded (evidence) but only judged through what escapes the entry point"]
 ANCHORS = ["lan.py:_Packet.decode", "lan.py:_LanProtocolV3._process_packet", "lan.py:_LanProtocolV3._decode_encrypted_response",
            "lan.py:LAN.send", "lan.py:LAN.authenticate", "base_device.py:Device._send_command", "base_device.py:Device.authenticate"]
-MIN_NONTRIVIAL = {"quick": 7000, "thorough": 150000}
+MIN_NONTRIVIAL = {"quick": 8000, "thorough": 150000}
 WORKERS = {"quick": 1, "thorough": 16}
 EXHAUSTIVE = {t: ["type nibbles 0..15 x 6 body shapes x phases {pre-auth, handshake, data}", "length-field boundary values x {plain, re-signed, signed for the sliced view}",
                   "signed-garbage ciphertext catalogue", "pad nibbles 0..15 under a valid tag"] for t in ("quick", "thorough")}
@@ -36,9 +36,9 @@ NONCE = bytes(range(100, 132))
 SKEY = v3.session_key(KEY, NONCE)
 BATCH = 48
 
-V2_DRIVERS = ["v2/lan.send", "v2/refresh", "v2/_send_command"]
+V2_DRIVERS = ["v2/lan.send", "v2/refresh", "v2/_send_command", "v2/apply", "v2/caps", "v2/toggle"]
 V3_PRE_DRIVERS = ["v3hs/lan.authenticate", "v3hs/dev.authenticate", "v3pre/unsolicited", "v3hs/send-implicit-auth"]
-V3_DATA_DRIVERS = ["v3data/lan.send", "v3data/refresh"]
+V3_DATA_DRIVERS = ["v3data/lan.send", "v3data/refresh", "v3data/apply", "v3data/caps"]
 
 
 def _items(ctx, rng):
@@ -159,6 +159,12 @@ def run_case(ctx, case):
             return await lan.send(acframe.state_query())
         if ep == "refresh":
             return await ac.refresh()
+        if ep == "apply":
+            return await ac.apply()
+        if ep == "caps":
+            return await ac.get_capabilities()
+        if ep == "toggle":
+            return await ac.toggle_display()
         if ep == "_send_command":
             return await ac._send_command(GetStateCommand())
         if ep in ("lan.authenticate", "unsolicited"):
